@@ -161,7 +161,22 @@ class Scenario:
 
 
 def objectify(df):
-    """in symbolic mode numeric columns that contain Sym cells are object dtype already; leave the rest alone"""
+    """Columns that hold at least one Sym are object dtype; plain Python numbers in such a column would follow Python's number
+    semantics (ZeroDivisionError) instead of numpy's (inf / nan).  Wrap them as Sym constants so that every cell of a mixed
+    column behaves like a float64 cell."""
+    from engine.sym import Sym, RV, is_num, is_special
+
+    for c in df.columns:
+        col = df[c]
+        if col.dtype != object:
+            continue
+        vals = col.tolist()
+        if not any(isinstance(v, Sym) for v in vals):
+            continue
+        if all(isinstance(v, Sym) or (is_num(v)) for v in vals):
+            new = np.empty(len(vals), dtype=object)
+            new[:] = [v if isinstance(v, Sym) or is_special(v) else Sym(RV(v)) for v in vals]
+            df[c] = new
     return df
 
 
